@@ -1,4 +1,5 @@
 import OV.Lemmas.C01Names
+import OV.Lemmas.C01Live
 /-!
 # Lemmas for C02: scoped definition-before-use of the model converter's output
 
@@ -1503,5 +1504,709 @@ theorem convert_scoped_ok {f : Func} {g : Graph} (h : convert f = .ok g) :
       have := m o ho
       simp only [List.mem_append] at this ⊢
       exact this.symm
+
+end OV.C01
+
+namespace OV.C01
+
+/-! ## Function outputs are pairwise distinct -/
+
+mutual
+theorem topDefs_sub_node : ∀ (n : Node) (x : Name), x ∈ n.outs → x ∈ n.allDefs
+  | .op _ _ _ o _, x, h => by simpa [Node.outs, Node.allDefs] using h
+  | .ifN _ o _ _ _ _, x, h => by
+    simp only [Node.outs] at h
+    simp only [Node.allDefs, List.mem_append]
+    exact Or.inl h
+  | .loop _ _ _ o _ _ _, x, h => by
+    simp only [Node.outs] at h
+    simp only [Node.allDefs, List.mem_append]
+    exact Or.inl h
+end
+
+theorem topDefs_sub_allDefsL : ∀ (ns : List Node) (x : Name), x ∈ topDefs ns → x ∈ allDefsL ns := by
+  intro ns
+  induction ns with
+  | nil => intro x h; simp [topDefs] at h
+  | cons n ns ih =>
+    intro x h
+    rw [topDefs_cons] at h
+    simp only [allDefsL, List.mem_append] at h ⊢
+    rcases h with h | h
+    · exact Or.inl (topDefs_sub_node n x h)
+    · exact Or.inr (ih x h)
+
+theorem after_in_used {s s' : St} {ns : List Node} (hf : NodesFresh s s' ns) {x : Name}
+    (h : x ∈ topDefs ns ++ s.used) : x ∈ s'.used := by
+  rcases List.mem_append.mp h with h | h
+  · exact (hf.2.2 x (topDefs_sub_allDefsL ns x h)).2
+  · exact hf.1 x h
+
+theorem emitCopy_out_fresh {o sug x : Name} {ns : List Node} {s s' : St}
+    (h : emitCopy o sug s = .ok ((x, ns), s')) : x ∉ s.used := by
+  unfold emitCopy at h
+  mbind h with n s1 hn
+  obtain ⟨h1, h2⟩ := pure_ok h
+  cases h1
+  exact (genUnique_spec hn).1
+
+theorem convRetOne_new {L : Locals} {inputs : List Name} {e : Expr} {pref : Name} {outs : List Name}
+    {o : Name} {ns : List Node} {s s' : St} (hL : VisOK s.used L) (ho : ∀ x, x ∈ outs → x ∈ s.used)
+    (h : convRetOne L inputs e pref outs s = .ok ((o, ns), s')) : o ∉ outs ∧ o ∈ s'.used := by
+  have hin : o ∈ s'.used := after_in_used (convRetOne_fresh h) (convRetOne_scope hL h).2
+  refine ⟨?_, hin⟩
+  unfold convRetOne at h
+  mbind h with p s1 h1
+  obtain ⟨rv, ns1⟩ := p
+  try dsimp only at h
+  mbind h with p s2 h2
+  obtain ⟨rv2, ns2⟩ := p
+  try dsimp only at h
+  have m1 := (convExpr_fresh L e _ h1).1
+  have m2 : Mono s1 s2 := by
+    by_cases hi : returnsInput L inputs rv = true
+    · rw [if_pos hi] at h2; exact (emitCopy_fresh h2).1
+    · rw [if_neg hi] at h2
+      obtain ⟨e1, e2⟩ := pure_ok h2
+      subst e2
+      exact Mono.refl _
+  by_cases hc : outs.contains rv2 = true
+  · rw [if_pos hc] at h
+    mbind h with p s3 h3
+    obtain ⟨rv3, ns3⟩ := p
+    try dsimp only at h
+    obtain ⟨e1, e2⟩ := pure_ok h
+    cases e1
+    intro hm
+    exact emitCopy_out_fresh h3 (m2 _ (m1 _ (ho _ hm)))
+  · rw [if_neg hc] at h
+    obtain ⟨e1, e2⟩ := pure_ok h
+    cases e1
+    intro hm
+    exact hc (List.contains_iff_mem.mpr hm)
+
+theorem convRetAll_nodup {L : Locals} {inputs : List Name} {single : Bool} :
+    ∀ (es : List Expr) (i : Nat) (outs : List Name) {outs' : List Name} {ns : List Node} {s s' : St},
+      VisOK s.used L → (∀ x, x ∈ outs → x ∈ s.used) → outs.Nodup →
+      convRetAll L inputs single es i outs s = .ok ((outs', ns), s') →
+      outs'.Nodup ∧ ∀ x, x ∈ outs' → x ∈ s'.used := by
+  intro es
+  induction es with
+  | nil =>
+    intro i outs outs' ns s s' _ ho hn h
+    unfold convRetAll at h
+    obtain ⟨e1, e2⟩ := pure_ok h
+    cases e1; subst e2
+    exact ⟨hn, ho⟩
+  | cons e es ih =>
+    intro i outs outs' ns s s' hL ho hn h
+    unfold convRetAll at h
+    simp only at h
+    mbind h with p s1 h1
+    obtain ⟨o, ns1⟩ := p
+    try dsimp only at h
+    mbind h with p s2 h2
+    obtain ⟨outs2, ns2⟩ := p
+    try dsimp only at h
+    obtain ⟨e1, e2⟩ := pure_ok h
+    cases e1; subst e2
+    obtain ⟨n1, u1⟩ := convRetOne_new hL ho h1
+    have m1 := (convRetOne_fresh h1).1
+    apply ih (i + 1) (outs ++ [o]) (hL.mono m1) _ _ h2
+    · intro x hx
+      rcases List.mem_append.mp hx with hx | hx
+      · exact m1 _ (ho x hx)
+      · simp only [List.mem_singleton] at hx; subst hx; exact u1
+    · rw [List.nodup_append]
+      refine ⟨hn, by simp, ?_⟩
+      intro a ha b hb hab
+      simp only [List.mem_singleton] at hb
+      subst hb; subst hab
+      exact n1 ha
+
+theorem convRetStmt_nodup {L : Locals} {inputs : List Name} {rc : Option Nat} {es : List Expr} {bare : Bool}
+    {outs outs' : List Name} {ns : List Node} {s s' : St} (hL : VisOK s.used L)
+    (ho : ∀ x, x ∈ outs → x ∈ s.used) (hn : outs.Nodup)
+    (h : convRetStmt L inputs rc es bare outs s = .ok ((outs', ns), s')) :
+    outs'.Nodup ∧ ∀ x, x ∈ outs' → x ∈ s'.used := by
+  unfold convRetStmt at h
+  by_cases hb : bare = true
+  · rw [if_pos hb] at h; exact (failM_ok h).elim
+  · rw [if_neg hb] at h
+    cases rc with
+    | none => exact convRetAll_nodup _ _ _ hL ho hn h
+    | some k =>
+      simp only at h
+      by_cases hk : k ≠ es.length
+      · rw [if_pos hk] at h; exact (failM_ok h).elim
+      · rw [if_neg hk] at h; exact convRetAll_nodup _ _ _ hL ho hn h
+
+theorem convTop_nodup {inputs : List Name} {rc : Option Nat} :
+    ∀ (ss : List Stmt) (L : Locals) (outs : List Name) {ns : List Node} {outs' : List Name} {s s' : St},
+      VisOK s.used L → (∀ x, x ∈ outs → x ∈ s.used) → outs.Nodup →
+      convTop inputs rc L ss outs s = .ok ((ns, outs'), s') → outs'.Nodup := by
+  intro ss
+  induction ss with
+  | nil =>
+    intro L outs ns outs' s s' _ _ hn h
+    unfold convTop at h
+    obtain ⟨e1, e2⟩ := pure_ok h
+    cases e1
+    exact hn
+  | cons st ss ih =>
+    intro L outs ns outs' s s' hL ho hn h
+    by_cases hb : ∃ es b, st = .ret es b
+    · obtain ⟨es, b, rfl⟩ := hb
+      unfold convTop at h
+      mbind h with p s1 h1
+      obtain ⟨outs1, ns1⟩ := p
+      try dsimp only at h
+      mbind h with p s2 h2
+      obtain ⟨ns2, outs2⟩ := p
+      try dsimp only at h
+      obtain ⟨e1, e2⟩ := pure_ok h
+      cases e1
+      obtain ⟨n1, u1⟩ := convRetStmt_nodup hL ho hn h1
+      exact ih L outs1 (hL.mono (convRetStmt_fresh h1).1) u1 n1 h2
+    · rw [convTop_cons_nonret inputs rc L st ss outs (fun es b hc => hb ⟨es, b, hc⟩)] at h
+      mbind h with p s1 h1
+      obtain ⟨L1, ns1⟩ := p
+      try dsimp only at h
+      mbind h with p s2 h2
+      obtain ⟨ns2, outs2⟩ := p
+      try dsimp only at h
+      obtain ⟨e1, e2⟩ := pure_ok h
+      cases e1
+      have r1 := convStmt_scope L st _ hL h1
+      have f1 := convStmt_fresh L st _ h1
+      have hL1 : VisOK s1.used L1 := r1.2.mono (fun x hx => after_in_used f1 hx)
+      exact ih L1 outs hL1 (fun x hx => f1.1 _ (ho x hx)) hn h2
+
+/-- **Function outputs are pairwise distinct** (`_translate_return_stmt` copies a value that is already an output). -/
+theorem convert_outputs_nodup {f : Func} {g : Graph} (h : convert f = .ok g) : g.outputs.Nodup := by
+  unfold convert at h
+  cases ha : assignedBlock f.body with
+  | none => rw [ha] at h; cases h
+  | some d =>
+    rw [ha] at h
+    simp only at h
+    cases hc : convTop (tensorParams f.params) f.retCount [paramFrame f.params] f.body []
+        { used := (tensorParams f.params).reverse, next := 0, castable := [] } with
+    | error e => rw [hc] at h; cases h
+    | ok r =>
+      obtain ⟨⟨ns, outs⟩, s'⟩ := r
+      rw [hc] at h
+      cases h
+      refine convTop_nodup _ _ _ ?_ (fun x hx => by cases hx) List.nodup_nil hc
+      intro fr hfr p hp n hn
+      simp only [List.mem_singleton] at hfr
+      subst hfr
+      simpa using paramFrame_vis _ p hp n hn
+
+end OV.C01
+
+namespace OV.C01
+
+/-! ## No graph input is returned directly — when parameters are never re-assigned -/
+
+/-- Every tensor parameter name is still bound to its own input value. -/
+def ParamBound (inputs : List Name) (L : Locals) : Prop :=
+  ∀ x, x ∈ inputs → lookup L x = some (.val x)
+
+theorem lookup_bindVar_ne {L : Locals} {x y : Name} {b : Bind} (h : y ≠ x) :
+    lookup (bindVar L x b) y = lookup L y := by
+  cases L with
+  | nil => simp [bindVar, lookup, Frame.find, Ne.symm h]
+  | cons f fs => simp [bindVar, lookup, Frame.find, Ne.symm h]
+
+theorem lookup_bindVals_notin : ∀ (xs ns : List Name) (L : Locals) {y : Name}, y ∉ xs →
+    lookup (bindVals L xs ns) y = lookup L y := by
+  intro xs
+  induction xs with
+  | nil => intro ns L y _; cases ns <;> rfl
+  | cons x xs ih =>
+    intro ns L y hy
+    cases ns with
+    | nil => rfl
+    | cons n ns =>
+      simp only [bindVals]
+      rw [ih ns _ (fun hm => hy (List.mem_cons_of_mem _ hm))]
+      exact lookup_bindVar_ne (fun he => hy (he ▸ List.mem_cons_self))
+
+theorem mem_vinter {y : Name} {a b : VSet} : y ∈ vinter a b ↔ y ∈ a ∧ y ∈ b := by
+  simp [vinter]
+
+/-- Outside the assigned names a statement leaves all bindings alone. -/
+def SameOutside (d : VSet) (L L' : Locals) : Prop := ∀ y, y ∉ d → lookup L' y = lookup L y
+
+theorem convPar_same : ∀ (xs : List Name) (es : List Expr) (L : Locals) {L' : Locals} {ns : List Node}
+    {s s' : St}, convPar L xs es s = .ok ((L', ns), s') → ∀ y, y ∉ xs → lookup L' y = lookup L y := by
+  intro xs
+  induction xs with
+  | nil =>
+    intro es L L' ns s s' h y _
+    unfold convPar at h
+    obtain ⟨e1, e2⟩ := pure_ok h
+    cases e1; rfl
+  | cons x xs ih =>
+    intro es L L' ns s s' h y hy
+    cases es with
+    | nil =>
+      unfold convPar at h
+      obtain ⟨e1, e2⟩ := pure_ok h
+      cases e1; rfl
+    | cons e es =>
+      unfold convPar at h
+      mbind h with p s1 h1
+      obtain ⟨t, ns1⟩ := p
+      try dsimp only at h
+      mbind h with p s2 h2
+      obtain ⟨L2, ns2⟩ := p
+      try dsimp only at h
+      obtain ⟨e1, e2⟩ := pure_ok h
+      cases e1
+      rw [ih es _ h2 y (fun hm => hy (List.mem_cons_of_mem _ hm))]
+      exact lookup_bindVar_ne (fun he => hy (he ▸ List.mem_cons_self))
+
+theorem loopFinish_locals {L L2 : Locals} {state : List Name} {bound cond : Option Name}
+    {condIn iv : Name} {ps : List Name} {whileVar : Option Name} {bn : List Node}
+    {brkCond : Option Name} {L' : Locals} {nl : List Node} {s s' : St}
+    (h : loopFinish L L2 state bound cond condIn iv ps whileVar bn brkCond s = .ok ((L', nl), s')) :
+    ∃ outs, L' = bindVals L state outs := by
+  unfold loopFinish at h
+  cases hcn : loopCondName L2 whileVar condIn with
+  | none => simp only [hcn] at h; exact (failM_ok h).elim
+  | some oc =>
+    simp only [hcn] at h
+    mbind h with condOut s1 h1
+    mbind h with p s2 h2
+    obtain ⟨os, ns3⟩ := p
+    try dsimp only at h
+    mbind h with p s3 h3
+    obtain ⟨inits, ns4⟩ := p
+    try dsimp only at h
+    mbind h with outs s4 h4
+    obtain ⟨e1, e2⟩ := pure_ok h
+    cases e1
+    exact ⟨outs, rfl⟩
+
+theorem loopState_sub {body : List Stmt} {lo : VSet} {state d : VSet}
+    (h : loopState body lo = some state) (hd : assignedBlock body = some d) : ∀ y, y ∈ state → y ∈ d := by
+  unfold loopState at h
+  rw [hd] at h
+  simp only at h
+  cases h
+  intro y hy
+  exact (mem_vinter.mp hy).1
+
+theorem convStmt_same (L : Locals) (st : Stmt) (lo : VSet) {L' : Locals} {ns : List Node} {s s' : St}
+    {d : VSet} (h : convStmt L st lo s = .ok ((L', ns), s')) (hd : assignedStmt st = some d) :
+    SameOutside d L L' := by
+  intro y hy
+  cases st with
+  | assign x e =>
+    unfold convStmt at h
+    mbind h with p s1 h1
+    obtain ⟨t, ns1⟩ := p
+    try dsimp only at h
+    obtain ⟨e1, e2⟩ := pure_ok h
+    cases e1
+    simp only [assignedStmt] at hd
+    cases hd
+    exact lookup_bindVar_ne (by simpa using hy)
+  | par xs es =>
+    unfold convStmt at h
+    simp only [assignedStmt] at hd
+    cases hd
+    by_cases hl : xs.length ≠ es.length
+    · rw [if_pos hl] at h; exact (failM_ok h).elim
+    · rw [if_neg hl] at h
+      exact convPar_same _ _ _ h y (fun hm => hy (mem_vofList.mpr hm))
+  | tuple xs e =>
+    simp only [assignedStmt] at hd
+    cases hd
+    cases e with
+    | call dom op sig args attrs =>
+      unfold convStmt at h
+      simp only at h
+      mbind h with p s1 h1
+      obtain ⟨as, ns1⟩ := p
+      try dsimp only at h
+      mbind h with attrs' s2 h2
+      mbind h with p s3 h3
+      obtain ⟨as', ns2⟩ := p
+      try dsimp only at h
+      mbind h with outs s4 h4
+      obtain ⟨e1, e2⟩ := pure_ok h
+      cases e1
+      exact lookup_bindVals_notin _ _ _ (fun hm => hy (mem_vofList.mpr hm))
+    | _ => unfold convStmt at h; exact (failM_ok h).elim
+  | badAssign xs e => unfold convStmt at h; exact (failM_ok h).elim
+  | ite c t e =>
+    unfold convStmt at h
+    rw [hd] at h
+    simp only at h
+    mbind h with p s1 h1
+    obtain ⟨test, ns0⟩ := p
+    try dsimp only at h
+    mbind h with p s2 h2
+    obtain ⟨Lt, tn⟩ := p
+    try dsimp only at h
+    mbind h with p s3 h3
+    obtain ⟨to, tn2⟩ := p
+    try dsimp only at h
+    mbind h with p s4 h4
+    obtain ⟨Le, en⟩ := p
+    try dsimp only at h
+    mbind h with p s5 h5
+    obtain ⟨eo, en2⟩ := p
+    try dsimp only at h
+    mbind h with renamed s6 h6
+    by_cases hre : renamed.isEmpty = true
+    · rw [if_pos hre] at h; exact (failM_ok h).elim
+    · rw [if_neg hre] at h
+      by_cases hrt : (renamed == [test]) = true
+      · rw [if_pos hrt] at h; exact (failM_ok h).elim
+      · rw [if_neg hrt] at h
+        obtain ⟨e1, e2⟩ := pure_ok h
+        cases e1
+        exact lookup_bindVals_notin _ _ _ (fun hm => hy (mem_vinter.mp hm).2)
+  | for_ i okIter bound body =>
+    unfold convStmt at h
+    by_cases hok : okIter = true
+    · simp only [hok, Bool.not_true, Bool.false_eq_true, if_false] at h
+      cases hs : loopState body lo with
+      | none => simp only [hs] at h; exact (failM_ok h).elim
+      | some state =>
+        simp only [hs] at h
+        mbind h with p s1 h1
+        obtain ⟨ob, ns0⟩ := p
+        try dsimp only at h
+        mbind h with condIn s2 h2
+        mbind h with p s3 h3
+        obtain ⟨L1, iv, ps⟩ := p
+        try dsimp only at h
+        mbind h with p s4 h4
+        obtain ⟨L2, bn, bc⟩ := p
+        try dsimp only at h
+        mbind h with p s5 h5
+        obtain ⟨L'', nl⟩ := p
+        try dsimp only at h
+        obtain ⟨e1, e2⟩ := pure_ok h
+        cases e1
+        obtain ⟨outs, rfl⟩ := loopFinish_locals h5
+        apply lookup_bindVals_notin
+        intro hm
+        simp only [assignedStmt] at hd
+        cases hb : assignedBlock body with
+        | none => rw [hb] at hd; cases hd
+        | some a =>
+          rw [hb] at hd
+          simp only at hd
+          cases hd
+          exact hy (mem_vunion.mpr (Or.inl (loopState_sub hs hb y hm)))
+    · simp only [hok, Bool.not_false, if_true] at h; exact (failM_ok h).elim
+  | while_ c body =>
+    cases c with
+    | var t =>
+      unfold convStmt at h
+      simp only at h
+      cases hs : loopState body lo with
+      | none => simp only [hs] at h; exact (failM_ok h).elim
+      | some state =>
+        simp only [hs] at h
+        mbind h with condIn s2 h2
+        mbind h with p s1 h1
+        obtain ⟨oc, ns0⟩ := p
+        try dsimp only at h
+        mbind h with p s3 h3
+        obtain ⟨L1, iv, ps⟩ := p
+        try dsimp only at h
+        mbind h with p s4 h4
+        obtain ⟨L2, bn, bc⟩ := p
+        try dsimp only at h
+        mbind h with p s5 h5
+        obtain ⟨L'', nl⟩ := p
+        try dsimp only at h
+        obtain ⟨e1, e2⟩ := pure_ok h
+        cases e1
+        obtain ⟨outs, rfl⟩ := loopFinish_locals h5
+        apply lookup_bindVals_notin
+        intro hm
+        simp only [assignedStmt] at hd
+        exact hy (loopState_sub hs hd y hm)
+    | _ => unfold convStmt at h; exact (failM_ok h).elim
+  | brk c => unfold convStmt at h; exact (failM_ok h).elim
+  | ret es b => unfold convStmt at h; exact (failM_ok h).elim
+  | skip =>
+    unfold convStmt at h
+    obtain ⟨e1, e2⟩ := pure_ok h
+    cases e1; rfl
+  | unsupported => unfold convStmt at h; exact (failM_ok h).elim
+
+theorem convRetOne_not_input {L : Locals} {inputs : List Name} {e : Expr} {pref : Name} {outs : List Name}
+    {o : Name} {ns : List Node} {s s' : St} (hP : ParamBound inputs L) (hu : ∀ x, x ∈ inputs → x ∈ s.used)
+    (h : convRetOne L inputs e pref outs s = .ok ((o, ns), s')) : o ∉ inputs := by
+  unfold convRetOne at h
+  mbind h with p s1 h1
+  obtain ⟨rv, ns1⟩ := p
+  try dsimp only at h
+  mbind h with p s2 h2
+  obtain ⟨rv2, ns2⟩ := p
+  try dsimp only at h
+  have m1 := (convExpr_fresh L e _ h1).1
+  have key : rv2 ∉ inputs ∧ Mono s1 s2 := by
+    by_cases hi : returnsInput L inputs rv = true
+    · rw [if_pos hi] at h2
+      exact ⟨fun hm => emitCopy_out_fresh h2 (m1 _ (hu _ hm)), (emitCopy_fresh h2).1⟩
+    · rw [if_neg hi] at h2
+      obtain ⟨e1, e2⟩ := pure_ok h2
+      cases e1; subst e2
+      refine ⟨fun hm => hi ?_, Mono.refl _⟩
+      unfold returnsInput
+      rw [hP _ hm]
+      simpa using hm
+  by_cases hc : outs.contains rv2 = true
+  · rw [if_pos hc] at h
+    mbind h with p s3 h3
+    obtain ⟨rv3, ns3⟩ := p
+    try dsimp only at h
+    obtain ⟨e1, e2⟩ := pure_ok h
+    cases e1
+    exact fun hm => emitCopy_out_fresh h3 (key.2 _ (m1 _ (hu _ hm)))
+  · rw [if_neg hc] at h
+    obtain ⟨e1, e2⟩ := pure_ok h
+    cases e1
+    exact key.1
+
+theorem convRetAll_not_input {L : Locals} {inputs : List Name} {single : Bool} :
+    ∀ (es : List Expr) (i : Nat) (outs : List Name) {outs' : List Name} {ns : List Node} {s s' : St},
+      ParamBound inputs L → (∀ x, x ∈ inputs → x ∈ s.used) → (∀ o, o ∈ outs → o ∉ inputs) →
+      convRetAll L inputs single es i outs s = .ok ((outs', ns), s') → ∀ o, o ∈ outs' → o ∉ inputs := by
+  intro es
+  induction es with
+  | nil =>
+    intro i outs outs' ns s s' _ _ ho h
+    unfold convRetAll at h
+    obtain ⟨e1, e2⟩ := pure_ok h
+    cases e1
+    exact ho
+  | cons e es ih =>
+    intro i outs outs' ns s s' hP hu ho h
+    unfold convRetAll at h
+    simp only at h
+    mbind h with p s1 h1
+    obtain ⟨o, ns1⟩ := p
+    try dsimp only at h
+    mbind h with p s2 h2
+    obtain ⟨outs2, ns2⟩ := p
+    try dsimp only at h
+    obtain ⟨e1, e2⟩ := pure_ok h
+    cases e1
+    have n1 := convRetOne_not_input hP hu h1
+    have m1 := (convRetOne_fresh h1).1
+    apply ih (i + 1) (outs ++ [o]) hP (fun x hx => m1 _ (hu x hx)) _ h2
+    intro o' ho'
+    rcases List.mem_append.mp ho' with ho' | ho'
+    · exact ho o' ho'
+    · simp only [List.mem_singleton] at ho'; subst ho'; exact n1
+
+theorem convRetStmt_not_input {L : Locals} {inputs : List Name} {rc : Option Nat} {es : List Expr} {bare : Bool}
+    {outs outs' : List Name} {ns : List Node} {s s' : St} (hP : ParamBound inputs L)
+    (hu : ∀ x, x ∈ inputs → x ∈ s.used) (ho : ∀ o, o ∈ outs → o ∉ inputs)
+    (h : convRetStmt L inputs rc es bare outs s = .ok ((outs', ns), s')) : ∀ o, o ∈ outs' → o ∉ inputs := by
+  unfold convRetStmt at h
+  by_cases hb : bare = true
+  · rw [if_pos hb] at h; exact (failM_ok h).elim
+  · rw [if_neg hb] at h
+    cases rc with
+    | none => exact convRetAll_not_input _ _ _ hP hu ho h
+    | some k =>
+      simp only at h
+      by_cases hk : k ≠ es.length
+      · rw [if_pos hk] at h; exact (failM_ok h).elim
+      · rw [if_neg hk] at h; exact convRetAll_not_input _ _ _ hP hu ho h
+
+theorem assignedBlock_cons {st : Stmt} {ss : List Stmt} {d : VSet} (h : assignedBlock (st :: ss) = some d) :
+    ∃ a b, assignedStmt st = some a ∧ assignedBlock ss = some b ∧ d = vunion a b := by
+  unfold assignedBlock at h
+  cases ha : assignedStmt st with
+  | none => simp only [ha] at h; cases h
+  | some a =>
+    cases hb : assignedBlock ss with
+    | none => simp only [ha, hb] at h; cases h
+    | some b =>
+      simp only [ha, hb] at h
+      cases h
+      exact ⟨a, b, rfl, rfl, rfl⟩
+
+theorem convTop_not_input {inputs : List Name} {rc : Option Nat} :
+    ∀ (ss : List Stmt) (L : Locals) (outs : List Name) {d : VSet} {ns : List Node} {outs' : List Name}
+      {s s' : St}, assignedBlock ss = some d → (∀ x, x ∈ inputs → x ∉ d) →
+      ParamBound inputs L → (∀ x, x ∈ inputs → x ∈ s.used) → (∀ o, o ∈ outs → o ∉ inputs) →
+      convTop inputs rc L ss outs s = .ok ((ns, outs'), s') → ∀ o, o ∈ outs' → o ∉ inputs := by
+  intro ss
+  induction ss with
+  | nil =>
+    intro L outs d ns outs' s s' _ _ _ _ ho h
+    unfold convTop at h
+    obtain ⟨e1, e2⟩ := pure_ok h
+    cases e1
+    exact ho
+  | cons st ss ih =>
+    intro L outs d ns outs' s s' hd hnd hP hu ho h
+    obtain ⟨a, b, ha, hb, rfl⟩ := assignedBlock_cons hd
+    have hnb : ∀ x, x ∈ inputs → x ∉ b := fun x hx hm => hnd x hx (mem_vunion.mpr (Or.inr hm))
+    by_cases hr : ∃ es b', st = .ret es b'
+    · obtain ⟨es, b', rfl⟩ := hr
+      unfold convTop at h
+      mbind h with p s1 h1
+      obtain ⟨outs1, ns1⟩ := p
+      try dsimp only at h
+      mbind h with p s2 h2
+      obtain ⟨ns2, outs2⟩ := p
+      try dsimp only at h
+      obtain ⟨e1, e2⟩ := pure_ok h
+      cases e1
+      have n1 := convRetStmt_not_input hP hu ho h1
+      exact ih L outs1 hb hnb hP (fun x hx => (convRetStmt_fresh h1).1 _ (hu x hx)) n1 h2
+    · rw [convTop_cons_nonret inputs rc L st ss outs (fun es b' hc => hr ⟨es, b', hc⟩)] at h
+      mbind h with p s1 h1
+      obtain ⟨L1, ns1⟩ := p
+      try dsimp only at h
+      mbind h with p s2 h2
+      obtain ⟨ns2, outs2⟩ := p
+      try dsimp only at h
+      obtain ⟨e1, e2⟩ := pure_ok h
+      cases e1
+      have hsame := convStmt_same L st _ h1 ha
+      have hP1 : ParamBound inputs L1 := by
+        intro x hx
+        rw [hsame x (fun hm => hnd x hx (mem_vunion.mpr (Or.inl hm)))]
+        exact hP x hx
+      exact ih L1 outs hb hnb hP1 (fun x hx => (convStmt_fresh L st _ h1).1 _ (hu x hx)) ho h2
+
+end OV.C01
+
+namespace OV.C01
+
+theorem Frame.find_append (a b : Frame) (x : Name) :
+    Frame.find (a ++ b) x = match Frame.find a x with | some v => some v | none => Frame.find b x := by
+  induction a with
+  | nil => simp [Frame.find]
+  | cons p rest ih =>
+    obtain ⟨y, v⟩ := p
+    simp only [List.cons_append, Frame.find]
+    by_cases hy : y = x
+    · simp [hy]
+    · simp [hy, ih]
+
+theorem paramFrame_find_none : ∀ (ps : List Param) (x : Name), x ∉ ps.map Param.name →
+    Frame.find (paramFrame ps) x = none := by
+  intro ps
+  induction ps with
+  | nil => intro x _; simp [paramFrame, Frame.find]
+  | cons q qs ih =>
+    intro x hx
+    simp only [List.map_cons, List.mem_cons, not_or] at hx
+    cases q with
+    | tensor y =>
+      simp only [paramFrame, Frame.find_append, ih x hx.2, Frame.find]
+      simp only [Param.name] at hx
+      simp [Ne.symm hx.1]
+    | attr y ty =>
+      simp only [paramFrame, Frame.find_append, ih x hx.2, Frame.find]
+      simp only [Param.name] at hx
+      simp [Ne.symm hx.1]
+
+theorem paramFrame_find : ∀ (ps : List Param) (x : Name), (ps.map Param.name).Nodup →
+    x ∈ tensorParams ps → Frame.find (paramFrame ps) x = some (.val x) := by
+  intro ps
+  induction ps with
+  | nil => intro x _ hx; simp [tensorParams] at hx
+  | cons q qs ih =>
+    intro x hn hx
+    simp only [List.map_cons, List.nodup_cons] at hn
+    cases q with
+    | tensor y =>
+      simp only [tensorParams, List.filterMap_cons, List.mem_cons] at hx
+      simp only [paramFrame, Frame.find_append]
+      rcases hx with rfl | hx
+      · rw [paramFrame_find_none qs x (by simpa [Param.name] using hn.1)]
+        simp [Frame.find]
+      · rw [ih x hn.2 (by simpa [tensorParams] using hx)]
+    | attr y ty =>
+      simp only [tensorParams, List.filterMap_cons] at hx
+      simp only [paramFrame, Frame.find_append]
+      rw [ih x hn.2 (by simpa [tensorParams] using hx)]
+
+/-- **No graph input is returned directly**, provided no tensor parameter is ever re-assigned in the body. -/
+theorem convert_no_input_returned {f : Func} {g : Graph} (h : convert f = .ok g)
+    (hnames : (f.params.map Param.name).Nodup)
+    (hna : ∀ d, assignedBlock f.body = some d → ∀ x, x ∈ tensorParams f.params → x ∉ d) :
+    ∀ o, o ∈ g.outputs → o ∉ g.inputs := by
+  unfold convert at h
+  cases ha : assignedBlock f.body with
+  | none => rw [ha] at h; cases h
+  | some d =>
+    rw [ha] at h
+    simp only at h
+    cases hc : convTop (tensorParams f.params) f.retCount [paramFrame f.params] f.body []
+        { used := (tensorParams f.params).reverse, next := 0, castable := [] } with
+    | error e => rw [hc] at h; cases h
+    | ok r =>
+      obtain ⟨⟨ns, outs⟩, s'⟩ := r
+      rw [hc] at h
+      cases h
+      refine convTop_not_input _ _ _ ha (hna d ha) ?_ (fun x hx => by simpa using hx)
+        (fun o ho => by cases ho) hc
+      intro x hx
+      simp only [lookup]
+      rw [paramFrame_find _ x hnames hx]
+
+end OV.C01
+
+namespace OV.C01
+
+theorem tensorParams_sublist : ∀ (ps : List Param), (tensorParams ps).Sublist (ps.map Param.name) := by
+  intro ps
+  induction ps with
+  | nil => simp [tensorParams]
+  | cons q qs ih =>
+    cases q with
+    | tensor x =>
+      simp only [tensorParams, List.filterMap_cons, List.map_cons, Param.name]
+      exact List.Sublist.cons₂ _ ih
+    | attr x ty =>
+      simp only [tensorParams, List.filterMap_cons, List.map_cons, Param.name]
+      exact List.Sublist.cons _ ih
+
+theorem tensorParams_nodup {ps : List Param} (h : (ps.map Param.name).Nodup) : (tensorParams ps).Nodup :=
+  (tensorParams_sublist ps).nodup h
+
+/-- No tensor parameter name is assigned anywhere in the body. -/
+def ParamsNotReassigned (f : Func) : Prop :=
+  ∀ d, assignedBlock f.body = some d → ∀ x, x ∈ tensorParams f.params → x ∉ d
+
+theorem convert_wfGraph {f : Func} {g : Graph} (h : convert f = .ok g)
+    (hnames : (f.params.map Param.name).Nodup) (hna : ParamsNotReassigned f) : wfGraph g = true := by
+  have h1 := convert_allDefs_nodup h (tensorParams_nodup hnames)
+  have h2 := convert_scoped_ok h
+  have h3 := convert_outputs_nodup h
+  have h4 := convert_no_input_returned h hnames hna
+  have nb : ∀ l : List Name, l.Nodup → nodupB l = true := by
+    intro l
+    induction l with
+    | nil => intro _; rfl
+    | cons x xs ih =>
+      intro hn
+      simp only [List.nodup_cons] at hn
+      simp [nodupB, hn.1, ih hn.2]
+  unfold wfGraph
+  simp only [Bool.and_eq_true]
+  refine ⟨⟨⟨⟨nb _ h1, h2.1⟩, (allIn_iff' _ _).mpr h2.2⟩, nb _ h3⟩, ?_⟩
+  simp only [List.all_eq_true]
+  intro o ho
+  simpa using h4 o ho
 
 end OV.C01
